@@ -150,6 +150,9 @@ func (s *Scanner) consumeStringValue() string {
 			} else {
 				terminated = true
 			}
+		} else if s.nextRuneIsInvalid() {
+			s.errorf("invalid utf-8 character in string")
+			s.consumeRune()
 		} else if !isSourceCharacter(s.nextRune) {
 			s.errorf("illegal character %#U in string", s.nextRune)
 			s.consumeRune()
